@@ -97,7 +97,7 @@ func registerAll() {
 	}
 	propTable["C03"] = &PropSpec{
 		ID:    "C03",
-		Rules: []string{"R1", "R2", "R4", "S1", "S2", "S4", "S5"},
+		Rules: []string{"R1", "R2", "R4", "S1", "S2", "S3", "S4", "S5"},
 		Explanation: "every slab mutated or created on a success path is stored or removed before the API call returns (typestate over slab objects with interprocedural summaries; re-keyed slabs need a later store; stores guarded by !inlined hand over to the notify-parent rule), every allocated id becomes a slab identity, every exported mutator notifies its parent; registers are written or deleted only by routines reachable exclusively through the commit entry points (call-graph closure over every exported/API function); Ledger.SetValue only inside the BaseStorage adapter; every collector of commit keys guards each key by address != AddressUndefined and records every owned key; every completed apply-loop iteration issues a register write; no register-write/encode/worker error is swallowed by a commit that returns nil.",
 		NotDecided: "that the encoded content equals the in-memory content (C07), determinism (C04); batch builders are analysed with weak updates on their slab collections.",
 		Technique:  "call-graph reachability (who-may-write-registers) + " + tCFG,
